@@ -184,6 +184,16 @@ example :
     useDefMust T fn (.instr 0 1) = [.instr 0 0] := by
   decide
 
+/-- all hypotheses of `lastWriter_in_must` and `useDef_lastWriter` hold together on that run (at the moment
+    `b := a + b` executes for the first time), and the theorems yield the concrete memberships -/
+example : Loc.instr 0 1 ∈ mustInclude T (.instr 0 2) sa ∧ Loc.instr 0 1 ∈ useDefMust T fn (.instr 0 2) := by
+  obtain ⟨c, hrun⟩ := run
+  constructor
+  · exact lastWriter_in_must fn T (by decide) σ0 c0 c rfl _ hrun
+      [.instr 0 0, .instr 0 1] [.edge 0 0, .instr 0 0] (.instr 0 2) rfl sa _ (by decide)
+  · exact useDef_lastWriter fn T (by decide) σ0 c0 c rfl _ hrun
+      [.instr 0 0, .instr 0 1] [.edge 0 0, .instr 0 0] (.instr 0 2) rfl sa (by decide) (.instr 0 1) (by decide)
+
 /-- the checks accept the correct answer and reject the two defects this property was written about:
     an empty use-definition set for the two-scalar read, and `a := a + 1` as its own definition -/
 example :
